@@ -49,6 +49,11 @@ var (
 	// failed HTLC attempt.
 	ErrAttemptAlreadyFailed = errors.New("attempt already failed")
 
+	// ErrAttemptAlreadyRegistered is returned if we try to register an
+	// HTLC attempt with an attempt ID the payment already has an attempt
+	// for.
+	ErrAttemptAlreadyRegistered = errors.New("attempt already registered")
+
 	// ErrAttemptNotRegistered is returned if we try to settle or fail an
 	// HTLC attempt that was never registered for the given payment.
 	ErrAttemptNotRegistered = errors.New("attempt not registered for " +
